@@ -118,8 +118,9 @@ class HarnessError(Exception):
 
 def documented_refusal(e):
     """Errors the library documents for inputs outside its domain; a generator that happens to produce such an input ends
-    the run (prefix stays checked) instead of reporting a violation.  Today: CUSUM's zero-variance estimation window."""
-    return isinstance(e, ValueError) and "Standard deviation is 0" in str(e)
+    the run (prefix stays checked) instead of reporting a violation.  Today: CUSUM's zero-variance estimation window, and numpy's
+    refusal to cut a feature whose range is a few ulps wide into histogram bins (a constant feature, as far as floats can tell)."""
+    return isinstance(e, ValueError) and ("Standard deviation is 0" in str(e) or "Too many bins for data range" in str(e))
 
 
 # --------------------------------------------------------------------------------------------
@@ -241,7 +242,7 @@ class Ctx:
             raise
         except Exception as e:  # noqa: BLE001 - by design
             if documented_refusal(e) and not self.judge_refusals:
-                self.note("documented_refusal:cusum_zero_variance")
+                self.note("documented_refusal:" + ("cusum_zero_variance" if "Standard" in str(e) else "histogram_of_constant_feature"))
                 raise EndRun()
             tb = traceback.extract_tb(e.__traceback__)
             where = ""
@@ -301,6 +302,11 @@ def run_case(mod, case, known_sigs=()):
         out["near_tie"] = True
     except EndRun:
         pass
+    except ValueError as e:
+        if "Too many bins for data range" in str(e):   # the model's own histogram of a feature that is constant as far as floats can tell
+            ctx.note("documented_refusal:histogram_of_constant_feature")
+        else:
+            out["harness"] = f"{type(e).__name__}: {e}\n" + traceback.format_exc(limit=8)
     except Exception as e:  # noqa: BLE001
         out["harness"] = f"{type(e).__name__}: {e}\n" + traceback.format_exc(limit=8)
     finally:
